@@ -11,7 +11,7 @@ import random
 import time
 from unittest import mock
 
-from twisted.internet import defer, task
+from twisted.internet import defer, task, error, protocol
 from twisted.internet.address import IPv4Address
 from twisted.internet.error import ConnectionDone, ConnectionRefusedError
 from twisted.python.failure import Failure
@@ -73,6 +73,18 @@ class FakeEndpoint:
         self.label = label
         self.factory = None
         self.d = None
+        self.real = None          # the endpoint the REAL endpoint_from_hint_obj built for this hint
+
+    def real_failure(self):
+        """what the REAL twisted endpoint's connect() fails with on the spot, if it does: HostnameEndpoint answers an
+        illegal hostname (underscore, space, empty or over-long label, ...) with defer.fail(ValueError(...)) without
+        touching the reactor.  Other endpoints / legal names would need a resolver: None."""
+        if not getattr(self.real, "_badHostname", False):
+            return None
+        got = []
+        d = self.real.connect(protocol.Factory())
+        d.addErrback(got.append)
+        return got[0] if got else None
 
     def connect(self, f):
         assert self.d is None
@@ -82,14 +94,22 @@ class FakeEndpoint:
 
 
 class FakePort:
-    """the listening port: inbound connections are delivered only while stopListening() has not been called"""
+    """the listening port: inbound connections are delivered only while stopListening() has not been called.  Like a
+    real tcp.Port, stopListening() returns a Deferred that fires LATER, when the port is really closed (harness op
+    `portclosed`)."""
 
     def __init__(self):
         self.stopped = 0
+        self.closed_d = None
 
     def stopListening(self):
         self.stopped += 1
-        return defer.succeed(None)
+        if self.closed_d is None:
+            self.closed_d = defer.Deferred()
+        return self.closed_d
+
+    def closing(self):
+        return self.closed_d is not None and not self.closed_d.called
 
 
 class FakeServerEndpoint:
@@ -227,6 +247,10 @@ class World:
                 # startNegotiation() raised before the factory subscribed to the negotiation Deferred: nobody ever
                 # will; what it is going to errback with is fixed.  Reported (like the model does) as failed.
                 c["orphan"] = type(raised).__name__
+        elif k == "portclosed":
+            # the listening port finishes closing (a reactor turn or more after stopListening())
+            if self.port is not None and self.port.closing():
+                self.port.closed_d.callback(None)
         elif k == "setkey":
             if self.has_key:
                 return None
@@ -247,6 +271,7 @@ class World:
                 for e in self.entries:              # directs are asked first, in list order; then the relays
                     if not e[5] and (e[1], e[2], e[3]) == (h.hostname, h.port, float(h.priority)):
                         e[5] = True
+                        self.eps[e[0]].real = ep
                         return self.eps[e[0]]
                 raise AssertionError(f"harness: unexpected hint {h!r}")
             with mock.patch("wormhole.transit.endpoint_from_hint_obj", efho):
@@ -254,12 +279,26 @@ class World:
             self.result = Obs(d)
             d.addErrback(lambda f: None)
         elif k in ("connected", "connfail"):
+            self.last_cls = "ConnectionRefusedError"
             lab = self.labels[op[1]] if op[1] < len(self.labels) else None
             ep = self.eps.get(lab)
             if ep is None or ep.d is None or ep.d.called:
                 return None
             if k == "connfail":
-                ep.d.errback(ConnectionRefusedError())
+                kind = op[2] if len(op) > 2 else "refused"
+                f = None
+                if kind == "real":
+                    f = ep.real_failure()
+                elif kind == "dns":
+                    f = Failure(error.DNSLookupError("no such host"))
+                elif kind == "timeout":
+                    f = Failure(error.TimeoutError())
+                elif kind == "other":
+                    f = Failure(RuntimeError("stream failed"))       # e.g. a Tor stream error: not a ConnectError
+                if f is None:
+                    f = Failure(ConnectionRefusedError())
+                self.last_cls = type(f.value).__name__
+                ep.d.errback(f)
             else:
                 c = rc = self._new_conn(ep.factory, lab.startswith("r"))
 
@@ -439,7 +478,7 @@ class World:
                         v.append(("loser-left-open", f"connect() returned conn {w} but conn {i} is still open (state={c['p'].state})"))
             if r != "pending" and r[0] == "fail" and ok_conns:
                 v.append(("failed-but-selected", f"connect() failed with {r[1]} although negotiation succeeded on {ok_conns}"))
-            if r == "pending" and ok_conns:
+            if r == "pending" and ok_conns and not (self.port is not None and self.port.closing()):
                 v.append(("selected-but-pending", f"negotiation succeeded on {ok_conns} but connect() has not fired"))
             if r == "pending" and now >= self.t0 + DEADLINE:
                 v.append(("deadline-missed", f"connect() still pending {now - self.t0}s after it was called"))
@@ -456,7 +495,12 @@ def new_line(w):
             f"{0 if w.has_key else 1}")
 
 
-def op_line(op):
+def op_line(op, w=None):
+    if op[0] == "connfail" and len(op) > 2 and w is not None:
+        return f"connfail {op[1]} {getattr(w, 'last_cls', 'ConnectionRefusedError')}"     # the exception CLASS
+    if len(op) > 1 and op[0] in ("S", "R") and op[1] == "connfail" and len(op) > 3 and w is not None:
+        W = w.S if op[0] == "S" else w.R
+        return f"{op[0]} connfail {op[2]} {getattr(W, 'last_cls', 'ConnectionRefusedError')}"
     return " ".join(str(x) for x in op)
 
 
@@ -468,7 +512,7 @@ def run_case(case):
     tags = ["role:" + case["cfg"]["role"], "gen:" + case.get("gen", "?")]
     for op in case["ops"]:
         r = w.op(op)
-        lines.append(op_line(op))
+        lines.append(op_line(op, w))
         exp.append("skip" if r is None else r)
         if r is None:
             tags.append("skip:" + op[0])
@@ -565,7 +609,7 @@ def chunk(rng, s, mode):
     return out
 
 
-NASTY_HOSTS = ["a\x00b", "\x00", "1.2.3.4\x00", "::1\x00", "fe80::1%eth0", "fe80::1%", "1.2.3.4", "::1", "\u00e9.example",
+NASTY_HOSTS = ["my_laptop", "a b.example", "a..b", "-x.example", "x" * 64 + ".example", "a\x00b", "\x00", "1.2.3.4\x00", "::1\x00", "fe80::1%eth0", "fe80::1%", "1.2.3.4", "::1", "\u00e9.example",
                "", "1.2.3", "[::1]", "a" * 70, " 1.2.3.4", "%"]
 
 
@@ -679,6 +723,8 @@ def gen_case(rng, big=False):
             ep = w.eps.get(lab)
             if ep is not None and ep.d is not None and not ep.d.called and len(w.conns) < 5:
                 choices += [("connected", k)] * 3 + [("connfail", k)]
+                if ep.real_failure() is not None:
+                    choices += [("connfail", k)] * 4          # the real endpoint refuses this hostname
         for i, chunks in pending.items():
             if chunks and not w.conns[i]["tr"].lost and not w.conns[i]["gone"]:
                 choices += [("data", i)] * 6
@@ -686,6 +732,8 @@ def gen_case(rng, big=False):
             if not c["gone"]:
                 choices += [("lost", i)] * (3 if c["tr"].lost else 1)
         choices += ["advance"] * 2
+        if w.port is not None and w.port.closing():
+            choices += ["portclosed"] * 3
         if not w.started:
             choices += ["connect"]
         if rng.random() < 0.06:
@@ -702,15 +750,21 @@ def gen_case(rng, big=False):
         elif ch[0] == "connected":
             do(["connected", ch[1]])
         elif ch[0] == "connfail":
-            do(["connfail", ch[1]])
+            ep = w.eps.get(w.labels[ch[1]]) if ch[1] < len(w.labels) else None
+            kinds_ = ["real"] * 4 if ep is not None and ep.real_failure() is not None else ["refused", "refused", "dns", "timeout", "other"]
+            do(["connfail", ch[1], rng.choice(kinds_)])
         elif ch[0] == "data":
             do(["data", ch[1], hx(pending[ch[1]].pop(0))])
         elif ch[0] == "junk":
             do(["data", ch[1], hx(bytes(rng.choice([0, 0, 1, rng.randrange(256)]) for _ in range(rng.randrange(1, 7))))])
         elif ch[0] == "lost":
             do(["lost", ch[1]])
+        elif ch == "portclosed":
+            do(["portclosed"])
         for i in range(n0, len(w.conns)):
             new_peer(i)
+        if w.port is not None and w.port.closing() and rng.random() < 0.6:
+            do(["portclosed"])          # usually the port is gone a reactor turn later; sometimes it takes longer
     if not w.started and rng.random() < 0.8:
         do(["connect"])
     if rng.random() < 0.6:
@@ -825,6 +879,22 @@ def corpus():
     c(dict(K, role="R", directs=1), [["inbound"], ["lost", 0], ["setkey"], ["connect"], ["connected", 1], ["data", 1, hx(E_r + GO)]], "early-hangup-receiver")
     c(dict(K, role="R"), [["inbound"], ["data", 0, hx(E_r + GO)], ["advance", 61], ["setkey"], ["connect"], ["inbound"],
                          ["data", 1, hx(E_r + GO)]], "early-keyholder-receiver")
+    # the port closes a while after stopListening(): the winner is reported at once, whatever happens in between
+    for tail in ([["advance", 1], ["portclosed"]], [["portclosed"], ["advance", 1]], [["advance", 200]]):
+        c(L, [["connect"], ["inbound"], ["advance", 119], ["data", 0, hx(E_s)]] + tail, "slow-port-close-deadline")
+        c(dict(role="R", listener=True, directs=0, relays=[]),
+          [["connect"], ["inbound"], ["data", 0, hx(E_r)], ["advance", 119], ["data", 0, hx(GO)]] + tail, "slow-port-close-deadline-receiver")
+    c(L, [["inbound"], ["data", 0, hx(E_s)], ["connect"], ["advance", 120], ["portclosed"]], "slow-port-close-early-winner")
+    c(dict(L, directs=1), [["connect"], ["connected", 1], ["data", 0, hx(E_s)], ["inbound"], ["advance", 120], ["portclosed"]], "slow-port-close-outbound-winner")
+    # an endpoint whose connect() fails with something that is not a ConnectError: the REAL HostnameEndpoint refuses an
+    # illegal hostname with ValueError; a Tor stream error; DNS; timeout — a failure is a failure
+    for kind, host in (("real", "my_laptop"), ("real", "a b.example"), ("other", "d0"), ("dns", "d0"), ("timeout", "d0")):
+        c(dict(role="S", listener=True, dhints=[[host, 1, 0], ["d1", 1, 0]], rhints=[]),
+          [["connect"], ["connfail", 1, kind], ["connected", 2], ["data", 0, hx(E_s)], ["advance", 120]], f"connfail-{kind}-{host[:3]}")
+        c(dict(role="R", listener=False, dhints=[[host, 1, 0]], rhints=[["r0", 1, 0]]),
+          [["connect"], ["advance", 2], ["connfail", 0, kind], ["connected", 1], ["data", 0, hx(b"ok\n" + E_r + GO)]], f"connfail-{kind}-{host[:3]}-receiver")
+    c(dict(role="S", listener=False, dhints=[["my_laptop", 1, 0]], rhints=[]), [["connect"], ["connfail", 0, "real"]], "connfail-real-only")
+    c(dict(role="S", listener=False, dhints=[], rhints=[["bad_relay", 1, 0]]), [["connect"], ["advance", 0], ["connfail", 0, "real"]], "connfail-real-relay")
     # cancelled connection whose timer is still running
     c(dict(L, directs=1), [["connect"], ["inbound"], ["connected", 1], ["data", 1, hx(E_s)], ["advance", 60], ["lost", 0], ["advance", 60]], "cancelled-then-timeout")
     return out
@@ -1028,7 +1098,7 @@ def run_duo(case):
     tags = ["duo", "gen:" + case.get("gen", "?")]
     for op in case["ops"]:
         r = w.op(op)
-        lines.append(op_line(op))
+        lines.append(op_line(op, w))
         exp.append("skip" if r is None else r)
         if r is None:
             tags.append("skip:" + "-".join(str(x) for x in op[:2]))
@@ -1083,7 +1153,7 @@ def gen_duo(rng, big=False):
             for k, lab in enumerate(W.labels):
                 ep = W.eps.get(lab)
                 if ep is not None and ep.d is not None and not ep.d.called:
-                    ch += [[side, "connfail", k]]
+                    ch += [[side, "connfail", k, "real" if ep.real_failure() is not None else rng.choice(["refused", "dns", "other"])]]
                     if len(W.conns) < 4:
                         ch += [[side, "connected", k]]      # a stranger answers
             for i, c in enumerate(W.conns):
@@ -1101,6 +1171,8 @@ def gen_duo(rng, big=False):
                     if stranger[key]:
                         ch += [[side, "data", i, None]] * 2
             ch += [[side, "advance", rng.choice([0, 1, 2, 2, 30, 60, 61, 120])]]
+            if W.port is not None and W.port.closing():
+                ch += [[side, "portclosed"]] * 4
         # links that can be made now
         for k in range(len(w.R.labels)):
             if w.S.port_open() and w._can_connect(w.R, k, False):
@@ -1177,6 +1249,12 @@ def corpus_duo():
     # the Receiver is quicker than the Sender's key: its first dial is dropped, a second one works
     c(dict(lS=True, kS=True, dR=2), [["R", "connect"], ["link", "s", 0], ["fwd", "RS", 0, 200], ["S", "setkey"], ["S", "connect"],
                                     ["link", "s", 1], ["fwd", "RS", 1, 200], ["fwd", "SR", 1, 200], ["R", "lost", 0]], "early-keyholder-then-retry")
+    # the Sender's port takes its time to close after the Receiver's dial-in has won; the deadline falls in between
+    c(dict(lS=True, dR=1), both + [["link", "s", 0], ["S", "advance", 119], ["fwd", "RS", 0, 200], ["S", "advance", 1], ["fwd", "SR", 0, 200],
+                                   ["S", "portclosed"], ["R", "advance", 120]], "slow-port-close-deadline")
+    # an illegal hostname among the Receiver's hints: the real endpoint refuses it; the other hint works
+    c(dict(lS=True, hdR=[["my_laptop", 1, 0], ["d1", 1, 0]], hrR=[]),
+      both + [["R", "connfail", 0, "real"], ["link", "s", 1], ["fwd", "RS", 0, 200], ["fwd", "SR", 0, 200]], "illegal-hostname-then-link")
     # the Receiver is late: the Sender's deadline passes first
     c(dict(lS=True, dR=1), [["S", "connect"], ["S", "advance", 120], ["R", "connect"], ["link", "s", 0], ["R", "connfail", 0]], "late-receiver")
     # the link is cut before go arrives
